@@ -1570,6 +1570,10 @@ M('C16', 'original defect: FlatLinearOperator masks the sector with the raw char
   "                charges = self.leg.chinfo.make_valid(self.leg.qconj * value)\n                self._mask = np.all(self.leg.to_qflat() == charges[np.newaxis, :], axis=1)", "                self._mask = np.all(self.leg.to_qflat() == value[np.newaxis, :], axis=1)",
   'WRAP-sector-direction')
 
+M('C02', 'original defect: _eig_worker stores the eigenvector block without casting', NPC,
+  "        resv._data[qi] = rv.astype(resv.dtype, copy=False)  # replace identity block (float32/complex64 input!)", "        resv._data[qi] = rv  # replace identity block",
+  'DTYPE-block-store')
+
 # ---------------------------------------------------------------- C16 / C19
 M('C16', 'GMRES restart: relative residual norm used for normalisation (round-3 seed b)', KRY,
   """        self.total_error.append([npc.norm(self.rs[-1]) / self.b_norm])
